@@ -275,8 +275,20 @@ func c16Matrix(r *fw.Rec, w, h int) {
 		bm, err = gozxing.ParseBoolMapToBitMatrix(m.b)
 		trace = append(trace, "ParseBoolMap")
 	} else {
-		bm, err = gozxing.ParseStringToBitMatrix(m.str("X", " ", "\n"), "X", " ")
-		trace = append(trace, "ParseString")
+		// rows may be separated by any run of line-break characters; blank lines are not rows
+		sep := []string{"\n", "\n", "\r\n", "\n\n", "\r", "\n\r\n"}[rng.Intn(6)]
+		str := m.str("X", " ", sep)
+		if rng.Intn(4) == 0 {
+			str = sep + str
+		}
+		if rng.Intn(4) == 0 {
+			str = strings.TrimRight(str, "\r\n")
+		}
+		if sep != "\n" {
+			r.Tally("parsed_with_multi_character_line_breaks")
+		}
+		bm, err = gozxing.ParseStringToBitMatrix(str, "X", " ")
+		trace = append(trace, fmt.Sprintf("ParseString(sep=%q)", sep))
 	}
 	fail := func(msg string) {
 		op := trace[len(trace)-1]
@@ -374,9 +386,24 @@ func c16Matrix(r *fw.Rec, w, h int) {
 			for i := range bs {
 				bs[i] = rng.Bool()
 			}
-			bm.SetRow(y, rowFromBools(bs))
+			if rng.Intn(3) == 0 {
+				// a row longer than the matrix is wide: SetRow takes its first GetRowSize() words
+				// and nothing else; the bits between the width and the word boundary stay clear,
+				// the surplus words are random
+				full := 32 * ((m.w + 31) / 32)
+				wide := make([]bool, full+1+rng.Intn(100))
+				copy(wide, bs)
+				for i := full; i < len(wide); i++ {
+					wide[i] = rng.Bool()
+				}
+				bm.SetRow(y, rowFromBools(wide))
+				trace = append(trace, fmt.Sprintf("SetRow(%d, %d-bit row)", y, len(wide)))
+				r.Tally("setrow_with_wider_row")
+			} else {
+				bm.SetRow(y, rowFromBools(bs))
+				trace = append(trace, fmt.Sprintf("SetRow(%d)", y))
+			}
 			copy(m.b[y], bs)
-			trace = append(trace, fmt.Sprintf("SetRow(%d)", y))
 		case 10:
 			// copy a row through GetRow/SetRow
 			y1, y2 := rng.Intn(m.h), rng.Intn(m.h)
@@ -393,9 +420,15 @@ func c16Matrix(r *fw.Rec, w, h int) {
 			m = m.rot90()
 			trace = append(trace, "Rotate90")
 		case 14:
-			s := bm.ToString("1", "0")
+			sep := []string{"\n", "\r\n", "\n\n", "\r"}[rng.Intn(4)]
+			s := bm.ToStringWithLineSeparator("1", "0", sep)
+			if sep == "\n" && s != bm.ToString("1", "0") {
+				trace = append(trace, "ToString")
+				fail("ToString differs from ToStringWithLineSeparator with \\n")
+				return
+			}
 			nb, e := gozxing.ParseStringToBitMatrix(s, "1", "0")
-			trace = append(trace, "Parse(ToString)")
+			trace = append(trace, fmt.Sprintf("Parse(ToString sep=%q)", sep))
 			if e != nil {
 				fail("Parse(ToString(m)) failed: " + e.Error())
 				return
@@ -734,4 +767,6 @@ func c16(c *fw.Ctx) {
 	c.Exhaustive("BitArray sizes 0..200 x both constructors")
 	c.Floor("matrix_sequences", int64(1040*nseq*9/10))
 	c.Floor("array_sequences", int64(402*aseq*9/10))
+	c.Floor("setrow_with_wider_row", 500)
+	c.Floor("parsed_with_multi_character_line_breaks", 300)
 }
